@@ -269,6 +269,10 @@ func builtinStringReplace(call FunctionCall) Value {
 	}
 
 	found := search.FindAllSubmatchIndex(target, find)
+	if global && searchObject != nil {
+		// The global search of 15.5.4.10 ends with a failed exec, which leaves lastIndex at 0.
+		searchObject.put("lastIndex", intValue(0), true)
+	}
 	if found == nil {
 		return stringValue(string(target)) // !match
 	}
@@ -311,10 +315,6 @@ func builtinStringReplace(call FunctionCall) Value {
 
 	if lastIndex != len(target) {
 		result = append(result, target[lastIndex:]...)
-	}
-
-	if global && searchObject != nil {
-		searchObject.put("lastIndex", intValue(lastIndex), true)
 	}
 
 	return stringValue(string(result))
